@@ -43,6 +43,7 @@ static int		g_randdev;	/* bound on rand() deviations explored at FINISH */
 static const char	*PROP;
 static int		is_asan;
 
+static int g_maxdepth = 1000, g_nofinish;
 static int st_states, st_trans, st_exec, st_merges, st_audits, st_selfloops, st_dn, st_cfgs, st_finish, st_randscripts, st_cb_calls, st_releases;
 
 /* ------------------------------------------------------------------ rand() seam */
@@ -127,6 +128,7 @@ static void free_codeword (const cfg_t *c)
 typedef struct {
 	of_session_t	*ses;
 	unsigned char	**buf, **dup, **pool;	/* symbol pointers handed to the library (block + align) */
+	unsigned char	*poison; void *blk_poison;	/* what the source table is pre-filled with: the library must overwrite every entry */
 	void		**blk_buf, **blk_dup, **blk_pool;
 	void		**sas_tab, **sas_copy, **src_tab, **prev_tab;
 	unsigned char	*submitted;		/* model: ESI submitted so far */
@@ -196,6 +198,7 @@ static world_t *world_new (void)
 	w->blk_buf = calloc ((size_t) n, sizeof (void *)); w->blk_dup = calloc ((size_t) n, sizeof (void *)); w->blk_pool = calloc ((size_t) k, sizeof (void *));
 	for (i = 0; i < n; i++) { w->buf[i] = mkbuf (&w->blk_buf[i], CW[i]); w->dup[i] = mkbuf (&w->blk_dup[i], CW[i]); }
 	for (i = 0; i < k; i++) w->pool[i] = mkbuf (&w->blk_pool[i], NULL);
+	w->poison = mkbuf (&w->blk_poison, NULL); memset (w->poison, 0xEE, (size_t) G.len);
 	/* pointer tables of exactly n resp. k entries */
 	w->sas_tab = malloc (sizeof (void *) * (size_t) n); w->sas_copy = malloc (sizeof (void *) * (size_t) n);
 	w->src_tab = malloc (sizeof (void *) * (size_t) k); w->prev_tab = calloc ((size_t) k, sizeof (void *));
@@ -213,6 +216,7 @@ static int is_app_ptr (world_t *w, const void *p)
 	int i;
 	for (i = 0; i < G.n; i++) if (p == w->buf[i] || p == w->dup[i]) return 1;
 	for (i = 0; i < G.k; i++) if (p == w->pool[i]) return 1;
+	if (p == w->poison) return 1;
 	return 0;
 }
 
@@ -303,6 +307,7 @@ static void world_close (world_t *w)
 	/* the harness' own memory (blocks the library freed by mistake are skipped by the tracker) */
 	for (i = 0; i < n; i++) { free (w->blk_buf[i]); free (w->blk_dup[i]); }
 	for (i = 0; i < k; i++) free (w->blk_pool[i]);
+	free (w->blk_poison);
 	free (w->buf); free (w->dup); free (w->pool); free (w->blk_buf); free (w->blk_dup); free (w->blk_pool);
 	free (w->sas_tab); free (w->sas_copy); free (w->src_tab); free (w->prev_tab);
 	free (w->submitted); free (w->avail); free (w->first_ptr); free (w->cb_calls);
@@ -331,9 +336,12 @@ static void observe (world_t *w, int kind, int st, int full)
 	const char *call = kind == 1 ? "DWS" : kind == 2 ? "SAS" : kind == 3 ? "FINISH" : "query";
 
 	complete = of_is_decoding_complete (w->ses) ? 1 : 0;
-	for (i = 0; i < k; i++) w->src_tab[i] = NULL;
+	for (i = 0; i < k; i++) w->src_tab[i] = w->poison;	/* "table, that will be filled by the library": stale content must not survive */
 	gst = (int) of_get_source_symbols_tab (w->ses, w->src_tab);
 	w->last_gst = gst;
+	if (gst == OF_STATUS_OK)
+		for (i = 0; i < k; i++) if (w->src_tab[i] == w->poison) { snprintf (sig, sizeof sig, "codec=%s|call=get_source_symbols_tab|kind=table-entry-not-filled", cn); viol (G.cbmode ? "C11" : "C10", sig); viol ("C01", sig); w->src_tab[i] = NULL; }
+	if (gst != OF_STATUS_OK) for (i = 0; i < k; i++) w->src_tab[i] = NULL;
 
 	/* C07: application buffers and tables are read-only for the library */
 	if (G.n <= 64 || full) {
@@ -803,9 +811,12 @@ static void bfs_config (const cfg_t *c, int sas_limit, long state_cap, long audi
 		if (b.q[cur].terminal) continue;
 		if (vf_deadline_hit ()) { capped = 2; break; }
 		x.parent = cur;
+		if (h.nops >= g_maxdepth) { capped = capped ? capped : 3; continue; }	/* declared depth bound of this grid */
 		/* FINISH (with rand() scripts) */
-		x.h = h; x.h.ops[x.h.nops++] = 0xFF;
-		for_rand_scripts (G.r, g_randdev, bfs_try, &x);
+		if (!g_nofinish) {
+			x.h = h; x.h.ops[x.h.nops++] = 0xFF;
+			for_rand_scripts (G.r, g_randdev, bfs_try, &x);
+		}
 		if (h.has_sas) continue;		/* SAS is never mixed with DWS */
 		/* DWS(e), duplicates included */
 		if (h.nops < MAXOPS - 2)
@@ -818,6 +829,7 @@ static void bfs_config (const cfg_t *c, int sas_limit, long state_cap, long audi
 		if (b.nq >= state_cap) { capped = 1; }
 	}
 	if (capped == 1) vf_incomplete ("cfg %d:%d:%d:%d:%d:%d cb=%d: state cap %ld reached", c->codec, c->m, c->k, c->r, c->N1, c->seed, c->cbmode, state_cap);
+	if (capped == 3) vf_note ("cfg %d:%d:%d:%d:%d:%d cb=%d: explored to the declared depth bound %d (%ld states)", c->codec, c->m, c->k, c->r, c->N1, c->seed, c->cbmode, g_maxdepth, b.nq);
 	if (capped == 2) vf_incomplete ("cfg %d:%d:%d:%d:%d:%d cb=%d: deadline reached after %ld of %ld states expanded", c->codec, c->m, c->k, c->r, c->N1, c->seed, c->cbmode, cur, b.nq);
 	vf_stat_add (st_states, b.nq);
 	vf_stat_add (st_cfgs, 1);
@@ -979,7 +991,16 @@ static void grid_bfs (const char *which, const char *cbset, int thorough)
 		int nmax = (int) vf_opt_long ("nmax2d", thorough ? 12 : 9);
 		for (k = 1; k <= 16; k++) for (r = 1; r <= 23; r++) if (k + r <= nmax && accepted_2d (k, r)) add_with_cb (5, 0, k, r, 0, 0, "n", thorough);
 	}
-	if (strstr (which, "ldpc")) {
+	if (strstr (which, "lowrate")) {
+		/* low code rate, small k, large N1: columns with many entries, rows padded with extra entries; one arriving
+		 * symbol can bring five or more equations to degree one at once (growth of the degree-1 table). Too many
+		 * symbols for all orders: every order of every prefix up to --maxdepth symbols. */
+		static const int lr_q[][4] = {{3, 12, 5, 1}, {2, 14, 7, 3}, {4, 12, 6, 2}, {3, 13, 7, 5}, {4, 14, 5, 9}, {2, 10, 5, 4}, {4, 13, 7, 6}, {3, 14, 6, 8}};
+		static const int lr_t[][4] = {{4, 22, 7, 260}, {4, 22, 7, 1}, {3, 20, 7, 2}, {4, 18, 6, 3}, {5, 20, 7, 4}, {3, 24, 5, 5}, {4, 20, 5, 6}, {2, 24, 7, 7}};
+		int i;
+		for (i = 0; i < 8; i++) add_with_cb (3, 0, lr_q[i][0], lr_q[i][1], lr_q[i][2], lr_q[i][3], cbset, thorough);
+		if (thorough) for (i = 0; i < 8; i++) add_with_cb (3, 0, lr_t[i][0], lr_t[i][1], lr_t[i][2], lr_t[i][3], cbset, thorough);
+	} else if (strstr (which, "ldpc")) {
 		int kmax = (int) vf_opt_long ("kmax", thorough ? 7 : 5), rmax = (int) vf_opt_long ("rmax", thorough ? 7 : 5), nmax = (int) vf_opt_long ("nmax", thorough ? 12 : 9);
 		static const int seeds_q[] = {1, 2}, seeds_t[] = {1, 2, 3, 7, 2147483646};
 		const int *seeds = thorough ? seeds_t : seeds_q;
@@ -993,6 +1014,7 @@ static void grid_bfs (const char *which, const char *cbset, int thorough)
 
 /* ------------------------------------------------------------------ work items */
 static int g_sas_limit; static long g_state_cap, g_audits;
+
 static void item_bfs (long it, void *arg)
 {
 	(void) arg;
@@ -1100,10 +1122,10 @@ static void build_large (int thorough, const char *which)
 			}
 		}
 	if (strstr (which, "ldpc")) {
-		static const int kr[][2] = {{100, 50}, {1000, 500}, {40, 20}, {255, 64}};
+		static const int kr[][2] = {{100, 50}, {1000, 500}, {40, 20}, {255, 64}, {1000, 10}, {700, 6}, {3000, 12}};	/* the last three: equations with more than 255 symbols */
 		for (i = 0; i < (int) (sizeof kr / sizeof kr[0]); i++) {
 			int k = kr[i][0], r = kr[i][1], n = k + r, N1;
-			if (!thorough && k >= 1000) continue;
+			if (!thorough && k >= 1000 && r != 10) continue;
 			for (N1 = 3; N1 <= 5; N1++) {
 				int wl[6], wi, astep = thorough ? (n > 400 ? 7 : 1) : (n > 100 ? 17 : 5);
 				c0 = NCF; add_cfg (3, 0, k, r, N1, 1 + i, 4, 0, 0, 0);
@@ -1129,7 +1151,7 @@ static void build_large (int thorough, const char *which)
 }
 
 /* lens mode (C07): symbol lengths x alignments on a reduced list, scenario per (cfg,len,align) */
-static void build_lens (int thorough)
+static void build_lens (int thorough, const char *which)
 {
 	static const int lens[] = {1, 2, 3, 4, 5, 6, 7, 8, 9, 10, 11, 12, 13, 14, 15, 16, 17, 18, 19, 20, 21, 22, 23, 24, 25, 26, 27, 28, 29, 30, 31, 32, 33, 34, 35, 36, 37, 38, 39, 40, 63, 64, 65};
 	static const int base[][6] = { /* codec m k r N1 seed */
@@ -1142,6 +1164,7 @@ static void build_lens (int thorough)
 			for (al = 0; al < 8; al++) {
 				long c0 = NCF;
 				int k = base[bi][2], r = base[bi][3], cb;
+				if (!strstr (which, base[bi][0] == 3 ? "ldpc" : "rs")) continue;
 				if (!thorough && (al & 1) && lens[li] > 20) continue;
 				for (cb = 0; cb <= 1; cb++) {
 					c0 = NCF;
@@ -1152,7 +1175,7 @@ static void build_lens (int thorough)
 				}
 			}
 	/* the limits */
-	{
+	if (strstr (which, "rs") && strstr (which, "ldpc")) {
 		long c0;
 		c0 = NCF; add_cfg (1, 8, 1, 254, 0, 0, 4, 0, 0, 0); add_scen (c0, "Sw1+1,F"); add_scen (c0, "Bw254+1"); add_scen (c0, "Aa-,F");
 		c0 = NCF; add_cfg (1, 8, 254, 1, 0, 0, 4, 0, 0, 0); add_scen (c0, "Sa-0,F"); add_scen (c0, "Ba-3"); add_scen (c0, "Sa-0.1,F");
@@ -1202,6 +1225,8 @@ int main (int argc, char **argv)
 	g_sas_limit = (int) vf_opt_long ("saslimit", thorough ? 12 : 9);
 	g_state_cap = vf_opt_long ("statecap", thorough ? 3000000 : 400000);
 	g_audits = vf_opt_long ("audits", thorough ? 300 : 40);
+	g_maxdepth = (int) vf_opt_long ("maxdepth", 1000);
+	g_nofinish = (int) vf_opt_long ("nofinish", 0);
 #ifdef __SANITIZE_ADDRESS__
 	is_asan = 1;
 #endif
@@ -1246,7 +1271,7 @@ int main (int argc, char **argv)
 		vf_stat_add (st_cfgs, NCF);
 		vf_pool_run (NCH, item_subsets, NULL, 0);
 	} else if (!strcmp (mode, "large") || !strcmp (mode, "lens")) {
-		if (!strcmp (mode, "large")) build_large (thorough, which); else build_lens (thorough);
+		if (!strcmp (mode, "large")) build_large (thorough, which); else build_lens (thorough, which);
 		vf_note ("%s: %ld configurations, %ld scenarios", mode, NCF, NSC);
 		vf_stat_add (st_cfgs, NCF);
 		vf_pool_run (NSC, item_scen, NULL, 0);
